@@ -241,13 +241,34 @@ def await_pred(aw):
     return lambda x: isinstance(x, tuple) and len(x) == 4 and x[0] == "await" and x[3] == aw.call_bb
 
 
-def failure_is_error(program, body, pred, terms=None):
+def failure_is_error(program, body, pred, terms=None, norm=None):
     """Error discipline for a fallible value: it is tested somewhere (`?`, match, if let, is_err ...), and from every
     edge on which it was *not* found Ok/Some no Ok return of `body` is reachable.  A result that is dropped (`.ok()`,
     `let _ =`, `unwrap_or*`) has no test; a result whose Err arm falls through to success has an Ok after a failure edge.
     -> (holds, witness string, ok edges, other edges)"""
     ok, bad = success_edges(program, body, pred, terms)
     if not ok and not bad:
+        # not tested here — but it may be *forwarded*: the function returns x.map(..).map_err(..) (or x itself), whose
+        # normal form is a selection on x with an Err/None value on x's failure side
+        if norm is not None:
+            T = terms or Terms(program, body)
+            fwd = 0
+            for s in outcome_sites(body):
+                if s["path"] != ():
+                    continue
+                v = norm(T._rvalue(s["rv"], s["bb"], s["idx"], 0) if s.get("idx") is not None else T._call(s["term"], s["bb"], 0))
+                if pred(v):
+                    fwd += 1
+                    continue
+                if isinstance(v, tuple) and v and v[0] == "gamma":
+                    sel, subj = presence_selection(v, pred)
+                    bad_side = sel.get(False)
+                    if subj is not None and isinstance(bad_side, tuple) and len(bad_side) == 4 and bad_side[0] == "agg" and bad_side[2] in ("Err", "None"):
+                        good_side = sel.get(True)
+                        if not (isinstance(good_side, tuple) and len(good_side) == 4 and good_side[0] == "agg" and good_side[2] in ("Err", "None")):
+                            fwd += 1
+            if fwd:
+                return True, "forwarded to the caller: the returned value is Err/None exactly when it failed", ok, bad
         return False, "the value is never tested: its error is dropped", ok, bad
     oks = [s["bb"] for s in outcome_sites(body) if s["kind"] == "Ok" and s["path"] == ()]
     for sb, sc in bad:
